@@ -376,6 +376,8 @@ def run(run, model):
             _h = loops.helper_of(model, _ck, _kind)
             if _h is not None:
                 run.do(loops.verdict_rule, model, _rn, _h[0], _h[1], _h[2], _depth)
+    run.do(meta.shared_member_rule, model, "C04.shared-member")
+    run.do(meta.namespace_rebind_rule, model, "C04.namespace-rebind")
     run.minimum("C04.pre-prov", 2)
     run.minimum("C04.post-prov", 2)
     run.minimum("C04.snap-prov", 3)
